@@ -11,6 +11,9 @@ import Lemmas.OutcomeG
 import CnfgenModel.Cli.OutcomeT
 import Props.C18.Graphs
 import Props.C05
+import Props.C18.Text
+import Props.C18.EndToEnd
+import Props.C17.Dispatch
 namespace Cnfgen.C18
 open Cnfgen Cnfgen.Cli Cnfgen.Gen Cnfgen.Subst
 
@@ -245,5 +248,391 @@ example : cliOutcomeLine detEnv ["php", "2", "1", "-T", "xorcomp", "complete", "
   decide +kernel
 example : cliOutcomeLine detEnv ["kcolor", "2", "complete", "3", "-T", "lift", "2"] = some .ok := by decide +kernel
 example : cliOutcomeLine detEnv ["php", "3", "2", "-T", "shuffle"] = none := by decide +kernel
+
+/-! ## totality of the chain parser, and a whole line over a numeric formula
+
+over is one `evalTrans` maps; a whole line `<numeric formula> -T … -T …` ends in `ok` or `cliError`, with NO hypothesis on
+the base formula (its well-formedness comes from `mapped_formula_wf`) and no "whenever the model answers".
+-/
+
+/-- the substitutions `evalTrans` maps, by number of integer arguments -/
+def transFns : Nat → List String
+  | 0 => ["IfThenElseSubstitution", "FlipPolarity"]
+  | 1 => ["XorSubstitution", "OrSubstitution", "MajoritySubstitution", "AllEqualSubstitution",
+          "NotAllEqualSubstitution", "ExactlyOneSubstitution", "FormulaLifting"]
+  | 2 => ["ExactlyKSubstitution", "AtLeastKSubstitution", "AtMostKSubstitution", "AnythingButKSubstitution"]
+  | _ => []
+
+def isIntArg (s : CliSpec) : Expr → Bool
+  | .arg d => dtot_intBound s d
+  | _ => false
+
+/-- a transformation sub-command with standard options whose single path is `Gen(F, <typed positionals>)`, `Gen` one of
+the thirteen substitutions of Trans/Subst.lean -/
+def transCovered (s : CliSpec) : Bool :=
+  s.kind == "transformation" && s.standard && s.name != "none" &&
+  s.templates.all (fun t => t.raises == "" && t.kw.isEmpty &&
+    (match t.pos with
+     | .name "F" :: rest => rest.all (isIntArg s) && (transFns rest.length).contains t.fn
+     | _ => false))
+
+theorem trans_covered_commands :
+    (cliSpecs.filter transCovered).map (·.name) =
+      ["anybut", "atleast", "atmost", "eq", "exact", "flip", "ite", "lift", "maj", "neq", "one", "or", "xor"] := by
+  decide +kernel
+
+/-- the transformation sub-commands outside: `majcomp` `xorcomp` (composed parsers, a bipartite graph or a random one),
+`shuffle` (random), `none` (handled by `parseTrans` itself), and the abstract base class -/
+theorem trans_excluded_commands :
+    (cliSpecs.filter (fun s => s.kind == "transformation" && !transCovered s)).map (·.name) =
+      ["", "majcomp", "none", "shuffle", "xorcomp"] := by decide +kernel
+
+theorem evalPos_ints (s : CliSpec) (hstd : s.standard = true) (argv : List String) (b : Ns)
+    (h : parseArgs s argv = .ok b) : ∀ (es : List Expr), es.all (isIntArg s) = true →
+      ∃ is : List Int, evalPos (namespaceOf s b) es = some (is.map Val.int) ∧ is.length = es.length := by
+  intro es
+  induction es with
+  | nil => intro _; exact ⟨[], rfl, rfl⟩
+  | cons e rest ih =>
+    intro hall
+    simp only [List.all_cons, Bool.and_eq_true] at hall
+    obtain ⟨is, his, hlen⟩ := ih hall.2
+    cases e with
+    | arg d =>
+      simp only [isIntArg] at hall
+      obtain ⟨i, hi⟩ := dtot_intBound_val s hstd argv b h d hall.1
+      refine ⟨i :: is, ?_, by simp [hlen]⟩
+      simp [evalPos, evalE, hi, his]
+    | _ => simp [isIntArg] at hall
+
+/-- a call `Gen(F, i₁ … iₙ)` with `Gen` among the substitutions for `n` integers is mapped, whatever the formula -/
+theorem evalTrans_mapped (env : GraphEnv) (F : CNF) (fn : String) (is : List Int)
+    (hfn : (transFns is.length).contains fn = true) :
+    (evalTrans env F ⟨fn, .param "F" :: is.map Val.int, []⟩).isSome = true := by
+  match is, hfn with
+  | [], hfn =>
+    simp only [transFns, List.length_nil, List.contains_eq_mem, List.mem_cons, List.not_mem_nil, or_false,
+      decide_eq_true_eq] at hfn
+    rcases hfn with rfl | rfl <;> simp [evalTrans]
+  | [a], hfn =>
+    simp only [transFns, List.length_cons, List.length_nil, List.contains_eq_mem, List.mem_cons, List.not_mem_nil,
+      or_false, decide_eq_true_eq] at hfn
+    rcases hfn with rfl | rfl | rfl | rfl | rfl | rfl | rfl <;> simp [evalTrans]
+  | [a, b], hfn =>
+    simp only [transFns, List.length_cons, List.length_nil, List.contains_eq_mem, List.mem_cons, List.not_mem_nil,
+      or_false, decide_eq_true_eq] at hfn
+    rcases hfn with rfl | rfl | rfl | rfl <;> simp [evalTrans]
+  | _ :: _ :: _ :: _, hfn => simp [transFns] at hfn
+
+/-- the chunk is parsed into a call that `evalTrans` maps on every formula -/
+def _root_.Cnfgen.Cli.TCall.mapped : TCall → Prop
+  | .identity => True
+  | .call c => ∀ (env : GraphEnv) (F : CNF), (evalTrans env F c).isSome = true
+
+/-- T-C18.T4 TOTALITY OF THE TRANSFORMATION PARSER.  For the thirteen substitution sub-commands and EVERY list of tokens
+of the fragment after the name: the parser refuses the chunk (CLIError) or hands over a call `evalTrans` maps — never
+"outside the model". -/
+theorem parseTrans_total (name : String) (args : List String) (h : HelperSpec) (s : CliSpec)
+    (hfind : helpers.find? (fun h => h.kind == "transformation" && h.name == name) = some h)
+    (hspec : specOf h = some s) (hc : transCovered s = true) (hf : inFragment s args = true) :
+    parseTrans (name :: args) = some (.error ()) ∨
+    ∃ t, parseTrans (name :: args) = some (.ok t) ∧ t.mapped := by
+  have hs := specOf_mem h s hspec
+  unfold transCovered at hc
+  simp only [Bool.and_eq_true, beq_iff_eq, bne_iff_ne, ne_eq] at hc
+  obtain ⟨⟨⟨_, hstd⟩, hnone⟩, hall⟩ := hc
+  have hname : name = s.name := by
+    have h1 := List.find?_some hfind
+    simp only [Bool.and_eq_true, beq_iff_eq] at h1
+    unfold specOf at hspec
+    have h2 := List.find?_some hspec
+    simp only [Bool.and_eq_true, beq_iff_eq] at h2
+    rw [← h1.2, h2.1.2]
+  have hnn : (name == "none") = false := by rw [hname]; simpa using hnone
+  unfold parseTrans
+  simp only [hfind, hnn, Bool.false_eq_true, if_false]
+  rcases C17.dispatch_total h s hspec hs hstd args hf with ⟨c, hc⟩ | he
+  · rw [hc]
+    right
+    refine ⟨.call c, rfl, ?_⟩
+    -- the shape of the call
+    unfold dispatch at hc
+    rw [hspec] at hc
+    dsimp only at hc
+    unfold dispatchSpec at hc
+    cases hd : dispatchTemplate s args with
+    | error e => rw [hd] at hc; cases hc
+    | ok tn =>
+      obtain ⟨t, ns⟩ := tn
+      rw [hd] at hc
+      dsimp only at hc
+      have htm := dispatchTemplate_mem s args t ns hd
+      have hsh := (List.all_eq_true.1 hall) t htm
+      simp only [Bool.and_eq_true, beq_iff_eq] at hsh
+      obtain ⟨⟨hr, hkw⟩, hpos⟩ := hsh
+      -- the bindings
+      have hpa : ∃ b, parseArgs s args = .ok b ∧ ns = namespaceOf s b := by
+        unfold dispatchTemplate at hd
+        split at hd
+        · cases hd
+        · cases hb : parseArgs s args with
+          | error e => rw [hb] at hd; cases hd
+          | ok b =>
+            rw [hb] at hd
+            dsimp only at hd
+            split at hd
+            · cases hd
+            · cases hd; exact ⟨b, rfl, rfl⟩
+      obtain ⟨b, hb, rfl⟩ := hpa
+      obtain ⟨guard, raises, fn, pos, kw, eff⟩ := t
+      dsimp only at hr hkw hpos
+      subst hr
+      have hkw' : kw = [] := by simpa using hkw
+      subst hkw'
+      split at hpos
+      · rename_i rest
+        simp only [Bool.and_eq_true] at hpos
+        obtain ⟨is, his, hlen⟩ := evalPos_ints s hstd args b hb rest hpos.1
+        have hfne : (fn == "") = false := by
+          cases hfe : (fn == "") with
+          | false => rfl
+          | true =>
+            have : fn = "" := by simpa using hfe
+            subst this
+            have h2 := hpos.2
+            generalize rest.length = n at h2
+            match n with
+            | 0 => simp [transFns] at h2
+            | 1 => simp [transFns] at h2
+            | 2 => simp [transFns] at h2
+            | _ + 3 => simp [transFns] at h2
+        have hc' : c = ⟨fn, .param "F" :: is.map Val.int, []⟩ := by
+          simp [instantiate, hfne, evalPos, evalE, his, evalKw] at hc
+          exact hc.symm
+        subst hc'
+        intro env F
+        exact evalTrans_mapped env F fn is (by rw [hlen]; exact hpos.2)
+      · cases hpos
+  · rw [he]; exact Or.inl rfl
+
+/-- a chunk the totality theorem speaks about: empty (`-T` without a transformation), `none`, or one of the thirteen
+substitutions followed by tokens of the fragment -/
+def ChunkCovered (ch : List String) : Prop :=
+  ch = [] ∨ ch = ["none"] ∨
+  ∃ name args h s, ch = name :: args ∧
+    helpers.find? (fun h => h.kind == "transformation" && h.name == name) = some h ∧
+    specOf h = some s ∧ transCovered s = true ∧ inFragment s args = true
+
+theorem parseTrans_covered (ch : List String) (hc : ChunkCovered ch) :
+    parseTrans ch = some (.error ()) ∨ ∃ t, parseTrans ch = some (.ok t) ∧ t.mapped := by
+  rcases hc with rfl | rfl | ⟨name, args, h, s, rfl, hfind, hspec, hcov, hf⟩
+  · exact Or.inl rfl
+  · right
+    refine ⟨.identity, ?_, trivial⟩
+    have hsome : (helpers.find? (fun h => h.kind == "transformation" && h.name == "none")).isSome = true := by
+      decide +kernel
+    obtain ⟨h0, hh0⟩ := Option.isSome_iff_exists.1 hsome
+    simp [parseTrans, hh0]
+  · exact parseTrans_total name args h s hfind hspec hcov hf
+
+/-- T-C18.T5 TOTALITY OF THE CHAIN PARSER: a CLIError, or a list of calls every one of which `evalTrans` maps -/
+theorem parseChain_total : ∀ (chunks : List (List String)), (∀ ch ∈ chunks, ChunkCovered ch) →
+    parseChain chunks = some (.error ()) ∨
+    ∃ ts, parseChain chunks = some (.ok ts) ∧ ∀ t ∈ ts, t.mapped := by
+  intro chunks
+  induction chunks with
+  | nil => intro _; exact Or.inr ⟨[], rfl, fun t ht => by simp at ht⟩
+  | cons ch rest ih =>
+    intro hall
+    have h1 := parseTrans_covered ch (hall ch (List.mem_cons_self ..))
+    have h2 := ih (fun c hc => hall c (List.mem_cons_of_mem _ hc))
+    unfold parseChain
+    rcases h1 with h1 | ⟨t, h1, ht⟩ <;> rcases h2 with h2 | ⟨ts, h2, hts⟩ <;> rw [h1, h2]
+    · exact Or.inl rfl
+    · exact Or.inl rfl
+    · exact Or.inl rfl
+    · refine Or.inr ⟨t :: ts, rfl, fun x hx => ?_⟩
+      rcases List.mem_cons.1 hx with rfl | hx
+      · exact ht
+      · exact hts x hx
+
+/-- … and such a chain runs to the end on every formula -/
+theorem runChain_total (env : GraphEnv) : ∀ (ts : List TCall) (F : CNF), (∀ t ∈ ts, t.mapped) →
+    ∃ r, runChain env F ts = some r := by
+  intro ts
+  induction ts with
+  | nil => intro F _; exact ⟨_, rfl⟩
+  | cons t rest ih =>
+    intro F hall
+    have hrest : ∀ x ∈ rest, x.mapped := fun x hx => hall x (List.mem_cons_of_mem _ hx)
+    cases t with
+    | identity => exact ih F hrest
+    | call c =>
+      have hm := hall (.call c) (List.mem_cons_self ..)
+      obtain ⟨r1, hr1⟩ := Option.isSome_iff_exists.1 (hm env F)
+      simp only [runChain, hr1]
+      cases r1 with
+      | error e => exact ⟨_, rfl⟩
+      | ok G => exact ih G hrest
+
+/-! ### a whole line over a numeric formula -/
+
+theorem numeric_not_graph : ∀ fn ∈ evalFns, (gHandlers.lookup fn).isNone = true := by decide
+
+theorem shield_cliError_valueError {α : Type} (e : Err) (h : shield (Except.error e : Except Err α) = .cliError) :
+    e = .valueError := by
+  cases e <;> simp [shield] at h ⊢
+
+/-- the formula part of a numeric sub-command (`end_to_end`): a CLIError, or the result of the family model on a call
+`evalCallF` maps -/
+theorem buildFormula_numeric (env : GraphEnv) (g : SimpleG) (name : String) (fargs : List String) (h : HelperSpec)
+    (s : CliSpec) (hfind : helpers.find? (fun h => h.kind == "formula" && h.name == name) = some h)
+    (hspec : specOf h = some s) (hc : outcomeCovered s = true) (hf : inFragment s fargs = true) :
+    buildFormula env g (name :: fargs) = some (.error ()) ∨
+    ∃ r c, buildFormula env g (name :: fargs) = some (.ok (.result r)) ∧ evalCallF g c = some r := by
+  have hs := specOf_mem h s hspec
+  have he := (end_to_end h s hspec hc fargs hf).1
+  unfold cliOutcome dispatch at he
+  rw [hspec] at he
+  dsimp only at he
+  unfold dispatchSpec at he
+  unfold buildFormula
+  simp only [hfind, hspec]
+  cases hd : dispatchTemplate s fargs with
+  | error e =>
+    rw [hd] at he
+    cases e with
+    | cliError => exact Or.inl rfl
+    | crash x => rcases he with he | he <;> simp at he
+    | unsupported x => rcases he with he | he <;> simp at he
+  | ok tn =>
+    obtain ⟨t, ns⟩ := tn
+    rw [hd] at he
+    dsimp only at he ⊢
+    have htm := dispatchTemplate_mem s fargs t ns hd
+    cases hi : instantiate ns t with
+    | error e =>
+      rw [hi] at he
+      cases e with
+      | cliError => exact Or.inl rfl
+      | crash x => rcases he with he | he <;> simp at he
+      | unsupported x => rcases he with he | he <;> simp at he
+    | ok c =>
+      rw [hi] at he
+      dsimp only at he ⊢
+      have hfn : evalFns.contains c.fn = true := by
+        have hcf : c.fn = t.fn := by
+          unfold instantiate at hi
+          split at hi
+          · split at hi <;> cases hi
+          · split at hi
+            · cases hi
+            · split at hi
+              · cases hi; rfl
+              · cases hi
+        rw [hcf]
+        unfold outcomeCovered at hc
+        simp only [Bool.and_eq_true] at hc
+        have h5 := hc.2
+        split at h5
+        · rename_i t0 hts
+          rw [hts] at htm
+          simp at htm
+          subst htm
+          simp only [Bool.and_eq_true] at h5
+          exact h5.2
+        · cases h5
+      have hG : evalCallG env ns c = none := by
+        unfold evalCallG
+        have := numeric_not_graph c.fn (by simpa using hfn)
+        cases hl : gHandlers.lookup c.fn with
+        | none => rfl
+        | some f => rw [hl] at this; simp at this
+      cases hev : evalCall c with
+      | none => rw [hev] at he; rcases he with he | he <;> simp at he
+      | some r0 =>
+        rw [ctext_evalCall_of_F g c] at hev
+        cases hF : evalCallF g c with
+        | none => rw [hF] at hev; simp at hev
+        | some r =>
+          right
+          refine ⟨r, c, ?_, hF⟩
+          unfold evalCallAny
+          rw [hG, hF]
+          rfl
+
+/-- T-C18.T6 A WHOLE LINE, NO HYPOTHESIS ON THE BASE FORMULA.  `<numeric sub-command> <tokens> -T <chunk> -T …` with the
+formula part one of the nine numeric sub-commands of `end_to_end` on ANY tokens of the fragment, and every chunk empty,
+`none`, or one of the thirteen substitutions on ANY tokens of the fragment: the model answers, and the run ends in `ok` or
+in a `cliError`.  The well-formedness of the base formula is derived (`mapped_formula_wf`), the totality of the chain
+parser and of the chain is `parseChain_total` / `runChain_total`.  (`henv`: the bipartite graphs of the environment
+are well formed — not used by these chunks, a hypothesis of `chain_clean`.) -/
+theorem line_never_escapes_numeric (env : GraphEnv) (henv : ∀ i t B, env.bip i t = some B → BipWF B)
+    (line : List String) (name : String) (fargs : List String) (tcmds : List (List String))
+    (hsplit : splitT line = (name :: fargs) :: tcmds) (h : HelperSpec) (s : CliSpec)
+    (hfind : helpers.find? (fun h => h.kind == "formula" && h.name == name) = some h)
+    (hspec : specOf h = some s) (hc : outcomeCovered s = true) (hf : inFragment s fargs = true)
+    (hch : ∀ ch ∈ tcmds, ChunkCovered ch) :
+    cliOutcomeLine env line = some .ok ∨ cliOutcomeLine env line = some .cliError := by
+  have hbf := buildFormula_numeric env ⟨1, 0, [[], []], []⟩ name fargs h s hfind hspec hc hf
+  have hpc := parseChain_total tcmds hch
+  -- the model answers
+  have htot : ∃ o, cliOutcomeLine env line = some o := by
+    unfold cliOutcomeLine cliLineCNF
+    rw [hsplit]
+    dsimp only
+    rcases hbf with hb | ⟨r, c, hb, _⟩ <;> rcases hpc with hp | ⟨ts, hp, hts⟩ <;> rw [hb, hp]
+    · exact ⟨_, rfl⟩
+    · exact ⟨_, rfl⟩
+    · exact ⟨_, rfl⟩
+    · dsimp only
+      cases r with
+      | error e => exact ⟨_, rfl⟩
+      | ok F =>
+        dsimp only
+        obtain ⟨rc, hrc⟩ := runChain_total env ts F.toCNF hts
+        rw [hrc]
+        cases rc <;> exact ⟨_, rfl⟩
+  obtain ⟨o, ho⟩ := htot
+  have := line_never_escapes_partial env henv line o ho
+    (fun fcmd' tcmds' F hs' hb' => by
+      rw [hsplit] at hs'
+      simp only [List.cons.injEq] at hs'
+      obtain ⟨rfl, _⟩ := hs'
+      rcases hbf with hb | ⟨r, c, hb, hF⟩
+      · rw [hb] at hb'; cases hb'
+      · rw [hb] at hb'
+        simp only [Option.some.injEq, Except.ok.injEq, Built.result.injEq] at hb'
+        subst hb'
+        exact mapped_formula_wf _ graphOK_one c F hF)
+    (fun fcmd' tcmds' e hs' hb' => by
+      rw [hsplit] at hs'
+      simp only [List.cons.injEq] at hs'
+      obtain ⟨rfl, _⟩ := hs'
+      rcases hbf with hb | ⟨r, c, hb, hF⟩
+      · rw [hb] at hb'; cases hb'
+      · rw [hb] at hb'
+        simp only [Option.some.injEq, Except.ok.injEq, Built.result.injEq] at hb'
+        subst hb'
+        have h1 : evalCall c = some (forget (Except.error e : Except Err Formula)) := by
+          rw [ctext_evalCall_of_F ⟨1, 0, [[], []], []⟩ c, hF]; rfl
+        rcases evalCall_clean c _ h1 with h2 | h2
+        · simp [forget, Except.map] at h2
+        · simpa [forget, Except.map] using h2)
+  rcases this with rfl | rfl
+  · exact Or.inl ho
+  · exact Or.inr ho
+
+/-- the hypotheses are satisfiable, and the conclusion is what the model computes -/
+example : cliOutcomeLine detEnv ["php", "x", "-T", "xor", "2"] = some .cliError := by decide +kernel
+example : cliOutcomeLine detEnv ["bphp", "3", "2", "-T", "xor", "2", "-T", "none", "-T", "lift", "0"] =
+    some .cliError := by decide +kernel
+example : cliOutcomeLine detEnv ["bphp", "3", "2", "-T", "xor", "2", "-T", "none", "-T", "flip"] = some .ok := by
+  decide +kernel
+example : ChunkCovered ["xor", "2"] :=
+  Or.inr (Or.inr ⟨"xor", ["2"], (helpers.find? (fun h => h.kind == "transformation" && h.name == "xor")).get
+    (by decide +kernel), (cliSpecs.find? (fun s => s.kind == "transformation" && s.name == "xor")).get
+    (by decide +kernel), rfl, by decide +kernel, by decide +kernel, by decide +kernel, by decide +kernel⟩)
+
 
 end Cnfgen.C18
